@@ -61,7 +61,14 @@ pub fn encode_chunked(payload: &[u8], sizes: &[usize], styles: &[ChunkStyle], ch
             out.push(b'0');
         }
     }
-    out.extend_from_slice(b"0\r\n\r\n");
+    out.push(b'0');
+    // last-chunk = 1*("0") [ chunk-ext ] CRLF: the terminator may carry an extension as well
+    if let Some(ext) = styles.last().and_then(|st| st.extension.as_ref()) {
+        if styles.len() >= 2 {
+            out.extend_from_slice(ext);
+        }
+    }
+    out.extend_from_slice(b"\r\n\r\n");
     out
 }
 
